@@ -28,6 +28,7 @@ var registry = map[string]propDef{
 	"C03c": {"other", props.C03ctors},
 	"C04":  {"other", props.C04},
 	"C04t": {"other", props.C04tweak},
+	"C04s": {"other", props.C04rand},
 	"C04o": {"other", props.C01offset},
 	"C05o": {"other", props.C01offset},
 	"C05q": {"other", props.C05outputs},
@@ -68,6 +69,14 @@ var registry = map[string]propDef{
 	"C06k": {"other", props.C06kdf},
 	"C06p": {"other", props.C06pack},
 	"C06e": {"other", props.C06seed},
+	"C06i": {"other", props.C06kept},
+	"C02i": {"other", props.C06kept},
+	"C10i": {"other", props.C10kept},
+	"C20i": {"other", props.C20kept},
+	"C17i": {"other", props.C17kept},
+	"C05i": {"other", props.C17kept},
+	"C11i": {"other", props.C11kept},
+	"C18i": {"other", props.C18kept},
 	"C06w": {"other", props.OTwindows},
 	"C15w": {"other", props.OTwindows},
 	"C02w": {"other", props.OTwindows},
@@ -107,6 +116,9 @@ var registry = map[string]propDef{
 	"C17":  {"other", props.C17},
 	"C17p": {"other", props.C17pool},
 	"C17h": {"other", props.C17handle},
+	"C17u": {"other", props.C17puts},
+	"C01u": {"other", props.C17puts},
+	"C04h": {"other", props.C17handle},
 	"C18h": {"other", props.C17handle},
 	"C14v": {"other", props.C14valid},
 	"C14t": {"other", props.C14types},
